@@ -2,7 +2,7 @@
 from vf import core
 from . import remoteclient as rc
 
-FORMULAS = {'NotifyInOrder', 'ReadySetsNext', 'NotifyAllInOrder', 'BurstInOrder', 'FromDeclaredId', 'ResumePointSurvives', 'NothingElseDelivered', 'HandlersAgree', 'NoPanic'}
+FORMULAS = {'CountedAreDelivered', 'NotifyInOrder', 'ReadySetsNext', 'NotifyAllInOrder', 'BurstInOrder', 'FromDeclaredId', 'ResumePointSurvives', 'NothingElseDelivered', 'HandlersAgree', 'NoPanic'}
 
 
 HQ_DIRECTED = [
@@ -13,6 +13,46 @@ HQ_DIRECTED = [
                                 ('Accept', 0, ''), ('Drop', 0, ''), ('Accept', 0, ''), ('Notify', 7, 'hdrs'), ('Release', 0, ''), ('Notify', 4, 'tx')]),
     ('held-before-accept', [('Hold', 0, ''), ('Notify', 8, 'hdrs'), ('Accept', 0, ''), ('Notify', 1, 'tx'), ('Release', 0, ''), ('Ready', 2, ''), ('Notify', 2, 'tx')]),
 ]
+
+
+STALL = [('stall-behind-full-queue', [('Accept', 0, 'valid'), ('Hold', 0, ''), ('Notify', 0, 'tip'), ('Flood', 0, ''), ('Notify', 1, 'tx'), ('Notify', 2, 'upd'),
+                                       ('Stall', 0, ''), ('Release', 0, '')]),
+         ('stall-free-control', [('Accept', 0, 'valid'), ('Hold', 0, ''), ('Notify', 0, 'tip'), ('Flood', 0, ''), ('Notify', 1, 'tx'), ('Notify', 2, 'upd'),
+                                 ('Release', 0, '')])]
+
+
+def backlog_stall(chk):
+    """spec/ReceiveBacklog.tla, action Stall: the application stays in a handler call for longer than the message channel time-out with a
+    full handler queue; what the message loop examines meanwhile is counted (next message id) and dropped (F43)."""
+    import json
+    from vf import pipeline
+    import os
+    if not os.environ.get('VERIF_SKIP_MODEL'):
+        m = pipeline.model_check(chk, 'ReceiveBacklog', 'MC_ReceiveBacklog_stall.cfg', workers=8, timeout=900, heap='8g')
+        if not m.ok:
+            chk.infra('model checking ReceiveBacklog (SpecStall) did not pass: %s %s' % (m.kind, m.violated))
+    scripts = [{'id': n, 'steps': [{'a': a, 'k': k, 'kind': kind} for a, k, kind in st]} for n, st in STALL]
+    lines, _ = pipeline.replay_parallel(chk, 'client', 'TestVerifBacklogStall', {}, scripts, nproc=2)
+    n = 0
+    rej = []
+    for sel, rs, r in pipeline.tlc_lines_parallel(chk, 'Trace_ReceiveBacklog', 'Trace_ReceiveBacklog.cfg', lines, 'trace_result.json', 1, 600):
+        rej += [sel[j - 1] for j in rs['rej']]
+    if rej:
+        l = rej[0]
+        chk.notes.append('BacklogStall conformance drift: %d rejected lines' % len(rej))
+        chk.log('DRIFT: Trace_ReceiveBacklog rejected %d stall steps; first: %s\n     before %s\n     after  %s' % (
+            len(rej), lines[l - 1]['act'], json.dumps(lines[l - 2]['st']), json.dumps(lines[l - 1]['st'])))
+    for sel, rs, r in pipeline.tlc_lines_parallel(chk, 'Props_ReceiveBacklog', 'Props_ReceiveBacklog.cfg', lines, 'props_result.json', 1, 600):
+        for f, j in rs['bad']:
+            if f != 'CountedAreDelivered':
+                continue
+            ln = lines[sel[j - 1] - 1]
+            n += 1
+            chk.violation(f, 'scenario %s: after the application caught up the next message id is %d but the handlers saw only %s' % (
+                ln['tr'], ln['st']['nextId'], [(d['k'], d['id']) for d in ln['st']['deliv']]),
+                {'script': {'id': ln['tr'], 'module': 'BacklogStall', 'steps': [s for s in scripts if s['id'] == ln['tr']][0]['steps']}}, {'line': ln})
+    chk.log('message-channel time-out behind a full handler queue: %d scenarios, %d lines, CountedAreDelivered false %d time(s)' % (len(scripts), len(lines), n))
+    return {'stall_batch': {'scenarios': len(scripts), 'lines': len(lines), 'false_instances': n, 'rejected': len(rej)}}
 
 
 def handler_queue(chk, thorough):
@@ -57,7 +97,8 @@ def handler_queue(chk, thorough):
         chk.log('DRIFT: Trace_HandlerQueue rejected %d recorded steps (scenarios %s)' % (len(rej), drift[:5]))
         l = rej[0]
         chk.log('  rejected: %s skip=%r\n     before %s\n     after  %s' % (lines[l - 1]['act'], lines[l - 1]['skip'], json.dumps(lines[l - 2]['st']), json.dumps(lines[l - 1]['st'])))
-    return {'slow_handler_batch': {'scenarios': len(scripts), 'lines': len(lines), 'rejected': len(rej), 'false_instances': len(bad),
+    stall = backlog_stall(chk)
+    return {'stall_batch': stall['stall_batch'], 'slow_handler_batch': {'scenarios': len(scripts), 'lines': len(lines), 'rejected': len(rej), 'false_instances': len(bad),
                                    'model_states': m.distinct if m else 0}}
 
 
